@@ -493,7 +493,7 @@ async fn run_demux(case: &Value) -> Value {
         r.shuffle(&mut order);
         let mut stream = Vec::new();
         for &k in &order {
-            let pad = *r.pick(&[0usize, 0, 16, 300, 5000]);
+            let pad = *r.pick(&[0usize, 0, 16, 300, 5000, 70_000]);
             let idn: usize = ids[k].parse().unwrap_or(0);
             stream.extend(reply_bytes(idn, &tags[k], pad, false));
         }
